@@ -7,3 +7,5 @@ import PysersicModel.IO.SkyEstimate
 import PysersicModel.IO.Validate
 import PysersicModel.IO.Names
 import PysersicModel.IO.Results
+import PysersicModel.Prob.Dist
+import PysersicModel.Prob.Loss
